@@ -569,6 +569,36 @@ def fold_tables_function(f, mentioned: frozenset) -> int:
             return out
 
         fn.body = prune(fn.body) or [ast.copy_location(ast.Pass(), fn)]
+    # inlined code binding the same local to literals several times (the helper spliced in more than once):
+    # reads in the statements that follow in the same block, up to the next one storing the name, see this literal
+    def local_prop(stmts):
+        nonlocal changed
+        for k, st in enumerate(stmts):
+            if not isinstance(st, (ast.FunctionDef, ast.AsyncFunctionDef, ast.ClassDef)):
+                for fld, lst in list(_blocks(st)):
+                    local_prop(lst)
+                if isinstance(st, ast.Try):
+                    for h in st.handlers:
+                        local_prop(h.body)
+            if isinstance(st, (ast.Assign, ast.AnnAssign)) and getattr(st, "value", None) is not None and getattr(st, "_origin", None) is not None:
+                tg = st.targets if isinstance(st, ast.Assign) else [st.target]
+                if len(tg) == 1 and isinstance(tg[0], ast.Name) and len(stores.get(tg[0].id, [])) > 1 and _is_literal(st.value) and not isinstance(st.value, ast.Tuple):
+                    nm, lit = tg[0].id, st.value
+                    for nxt in stmts[k + 1:]:
+                        if any((isinstance(n, ast.Name) and n.id == nm and isinstance(n.ctx, (ast.Store, ast.Del))) or isinstance(n, (ast.FunctionDef, ast.AsyncFunctionDef, ast.Lambda)) for n in ast.walk(nxt)):
+                            break
+
+                        class L(ast.NodeTransformer):
+                            def visit_Name(self, n, nm=nm, lit=lit):
+                                nonlocal changed
+                                if isinstance(n.ctx, ast.Load) and n.id == nm:
+                                    changed += 1
+                                    return ast.copy_location(clone(lit), n)
+                                return n
+
+                        L().visit(nxt)
+
+    local_prop(fn.body)
     if changed:
         ast.fix_missing_locations(fn)
         par = getattr(fn, "_parent", None)
